@@ -1,20 +1,9 @@
 #!/bin/sh
-# usage: tools/seedall.sh [name...]  -- applies every kept seed to /repo in turn, runs the quick checks named in its meta.json, reverts.
+# usage: tools/seedall.sh [name...]  -- runs, for every kept seed, the quick checks named in its meta.json against a scratch worktree carrying the change
 cd /verif
-export VERIF_EVIDENCE_DIR=/verif/.work/seed-evidence VERIF_REPLAY_DIR=/verif/.work/seed-replays
-[ -n "$(git -C /repo status --porcelain)" ] && { echo "/repo not clean"; exit 2; }
 names="$@"; [ -z "$names" ] && names=$(ls seeded)
 for n in $names; do
-  d=seeded/$n
-  checks=$(/venv/bin/python -c "import json;print(' '.join(json.load(open('$d/meta.json'))['detected_by']))")
-  if ! git -C /repo apply --check "/verif/$d/patch.diff" 2>/dev/null; then echo "$n APPLY-FAILED"; continue; fi
-  git -C /repo apply "/verif/$d/patch.diff"
-  res=""
-  for c in $checks; do
-    out=$(./check "$c" --tier quick 2>&1); rc=$?
-    nv=$(echo "$out" | grep -c '^VIOLATION')
-    res="$res $c:rc=$rc,viol=$nv"
-  done
-  git -C /repo checkout -- .
-  echo "$n$res"
+  checks=$(/venv/bin/python -c "import json;print(' '.join(json.load(open('seeded/$n/meta.json'))['detected_by']))")
+  out=$(tools/seedrun.sh seeded/$n $checks)
+  case "$out" in *APPLY-FAILED*) echo "$n APPLY-FAILED";; *) echo "$n $(echo "$out" | sed 's/ violations_lines=/,viol=/; s/ ::.*//' | tr '\n' ' ')";; esac
 done
